@@ -166,7 +166,10 @@ Inductive expr :=
 | EDictValues (e : expr)                       (* e.values() *)
 | EListOf (e : expr)                           (* list(e) *)
 | EDir (e : expr)                              (* dir(e) *)
-| EStartsWith (e p : expr).                    (* e.startswith(p) *)
+| EStartsWith (e p : expr)                     (* e.startswith(p) *)
+| EIsClass (e : expr)                          (* isinstance(e, type) *)
+| EUsesMixin (e : expr)                        (* issubclass(e, GenericMixin) *)
+| EClassAttrIsProperty (e n : expr).           (* isinstance(getattr(type(e), n, None), property) *)
 
 Inductive stmt :=
 | SSkip
@@ -198,11 +201,13 @@ Record cls_rec := {
   c_mro : list nat;               (* the MRO of the class, beginning with the class itself *)
 }.
 
-Inductive aent := AVal (v : val) | ARaise (e : exn).     (* what getattr(self, name) does *)
+(* what getattr(self, name) does: a plain attribute / a descriptor that raises / a property (what its getter does) *)
+Inductive aent := AVal (v : val) | ARaise (e : exn) | AProp (o : outcome val).
 
 Record world := {
   w_classes : list (nat * cls_rec);
   w_attrs : list (string * aent);     (* dir(self) order *)
+  w_mixin : nat;                      (* the class GenericMixin *)
 }.
 
 Fixpoint find_cls (c : nat) (l : list (nat * cls_rec)) : option cls_rec :=
@@ -219,6 +224,11 @@ Fixpoint first_ob (w : world) (mro : list nat) : option (list val) :=
   | [] => None
   | c :: r => match own_ob w c with Some l => Some l | None => first_ob w r end
   end.
+
+(* issubclass(C, GenericMixin): the mixin is on the MRO of class c (a class the world does not list - list, dict,
+   Generic - is not a subclass of it) *)
+Definition uses_mixin (w : world) (c : nat) : bool :=
+  match find_cls c (w_classes w) with Some r => existsb (Nat.eqb (w_mixin w)) (c_mro r) | None => false end.
 
 (* the value of the attribute lookup C.__orig_bases__ (None: AttributeError) *)
 Definition lookup_ob (w : world) (c : nat) : option (list val) :=
@@ -304,6 +314,7 @@ Section Interp.
         else match assoc name (w_attrs w) with
              | Some (AVal x) => Ok x
              | Some (ARaise e) => Raise e
+             | Some (AProp o) => o
              | None => Raise AttributeErrorC
              end
     | VCls c =>
@@ -397,6 +408,22 @@ Section Interp.
                   | VStr s, VStr pre => Ok (VBool (String.prefix pre s))
                   | VStr _, _ => Raise TypeErrorC
                   | _, _ => Raise AttributeErrorC
+                  end))
+    | EIsClass a => bind (eval a en) (fun v =>
+                  Ok (VBool (match v with VCls _ | VGeneric | VEnumCls _ => true | _ => false end)))
+    | EUsesMixin a => bind (eval a en) (fun v =>
+                  match v with
+                  | VCls c => Ok (VBool (uses_mixin w c))
+                  | VGeneric | VEnumCls _ => Ok (VBool false)
+                  | _ => Raise TypeErrorC          (* issubclass() arg 1 must be a class *)
+                  end)
+    | EClassAttrIsProperty a n => bind (eval a en) (fun v => bind (eval n en) (fun nv =>
+                  match v, nv with
+                  | VInst _ _, VStr name =>
+                      Ok (VBool (is_property progs name ||
+                                 match assoc name (w_attrs w) with Some (AProp _) => true | _ => false end))
+                  | _, VStr _ => Ok (VBool false)
+                  | _, _ => Raise TypeErrorC
                   end))
     end.
 
@@ -529,7 +556,8 @@ Inductive wrapk :=
 | WPlain                 (* def m(self) *)
 | WClassMethod           (* @classmethod *)
 | WStaticMethod          (* @staticmethod *)
-| WGetter (a : aent).    (* @property (a: what the getter does) or a non-function class attribute (a: its value) *)
+| WGetter (a : aent)     (* a non-function class attribute (a: its value / what reading it does) *)
+| WProperty (o : outcome val).   (* @property (o: what the getter does) *)
 
 Record mdef := {
   m_name : string;             (* the name dir() lists *)
@@ -550,7 +578,7 @@ Definition ext_std (callee : val) (args : list val) : outcome val :=
   | _, _ => Raise TypeErrorC
   end.
 
-Definition empty_world : world := {| w_classes := []; w_attrs := [] |}.
+Definition empty_world : world := {| w_classes := []; w_attrs := []; w_mixin := 0 |}.
 
 (* one application  @deco(value)  to the current object, through the translated program *)
 Definition apply_deco (fd_fun : fundef) (cur : val) (d : deco) : outcome val :=
@@ -568,11 +596,14 @@ Fixpoint apply_decos (fd_fun : fundef) (cur : val) (ds : list deco) : outcome va
 Definition build_attr (fd_fun : fundef) (m : mdef) : outcome (string * aent) :=
   match m_wrap m with
   | WGetter a =>
+      bind (apply_decos fd_fun (VObj (m_id m) []) (m_inner m)) (fun _ =>
+      bind (apply_decos fd_fun (VTok 0) (m_outer m)) (fun _ => Ok (m_name m, a)))
+  | WProperty o =>
       (* a decorator above @property does setattr on the property object (no __dict__): the program
          raises AttributeError while the class body runs; decorators below @property decorate the
          getter, which getattr(instance, name) never shows *)
       bind (apply_decos fd_fun (VObj (m_id m) []) (m_inner m)) (fun _ =>
-      bind (apply_decos fd_fun (VTok 0) (m_outer m)) (fun _ => Ok (m_name m, a)))
+      bind (apply_decos fd_fun (VTok 0) (m_outer m)) (fun _ => Ok (m_name m, AProp o)))
   | WPlain => bind (apply_decos fd_fun (VObj (m_id m) []) (m_inner m ++ m_outer m))
                    (fun o => Ok (m_name m, AVal o))
   | WClassMethod | WStaticMethod =>
